@@ -188,7 +188,8 @@ class CompilerArgs(T.MutableSequence[str]):
         del self._container[index]
 
     def __len__(self) -> int:
-        return len(self._container) + len(self.pre) + len(self.post)
+        self.flush_pre_post()
+        return len(self._container)
 
     def insert(self, index: int, value: str) -> None:
         self.flush_pre_post()
